@@ -54,7 +54,17 @@ fn gen_case(rng: &mut Rng, thorough: bool, idx: u64) -> Case {
         _ => { let hi = if rng.coin(1, 3) { MAXW as u64 } else { 700 }; rng.range(1, hi) as usize }
     };
     let class = rng.below(5);
-    let init: Vec<u8> = (0..wl).map(|_| byte_of(rng, class)).collect();
+    let mut init: Vec<u8> = (0..wl).map(|_| byte_of(rng, class)).collect();
+    if rng.coin(1, 8) {
+        // two constant runs of high bytes meeting at a boundary where deferred-modulo accumulators (zlib's NMAX = 5552 and
+        // nearby multiples of 16/32, powers of two) carry their largest sums: high carry-in, then a run of 0xFF
+        let l1 = *rng.pick(&[4096usize, 5536, 5552, 5568, 5600, 8192, 11104, 11136]);
+        let v1 = 0xF0 + rng.below(15) as u8;
+        let l2 = *rng.pick(&[l1, 5552, 5568, 8192, 16384]);
+        init = vec![v1; l1];
+        init.extend(std::iter::repeat(0xFFu8).take(l2.min(MAXW - l1)));
+    }
+    let wl = init.len();
     // number of operations: cross the 5000-normalisation boundary several times in a fraction of cases
     let nops = match rng.below(10) {
         0 => 0,
